@@ -25,7 +25,13 @@ TIE_A = ["Tables.export",
          "code:fuzzylite.exporter.FllExporter.activation", "code:fuzzylite.exporter.FllExporter.defuzzifier",
          "code:fuzzylite.exporter.FllExporter.rule", "code:fuzzylite.exporter.FllExporter.variable",
          "code:fuzzylite.exporter.FllExporter.input_variable", "code:fuzzylite.exporter.FllExporter.output_variable",
-         "code:fuzzylite.exporter.FllExporter.rule_block", "code:fuzzylite.exporter.FllExporter.engine"]
+         "code:fuzzylite.exporter.FllExporter.rule_block", "code:fuzzylite.exporter.FllExporter.engine",
+         # the import side of term parameters (theorems `code_*` in the block "Tie A: term parameters" of Props/C14.lean)
+         "code:fuzzylite.term.Term._parse", "code:fuzzylite.term.Triangle.configure", "code:fuzzylite.term.Trapezoid.configure",
+         "code:fuzzylite.term.Constant.configure", "code:fuzzylite.term.Linear.configure", "code:fuzzylite.term.Discrete.configure",
+         "code:fuzzylite.term.Function.configure", "code:fuzzylite.operation.Operation.as_identifier",
+         "code:fuzzylite.operation.Operation.strip_comments", "code:fuzzylite.operation.Operation.scale",
+         "code:fuzzylite.operation.Operation.bound"]
 RULE = ("generated engines over every registered term class (incl. Discrete, Linear, Function, Constant), norm, defuzzifier "
         "(resolution / type), activation method (parameters), descriptions, disabled variables / blocks, heights and weights "
         "(1 | far from 1 | inside the tolerance | around the rounding boundary of the printed form), infinite / NaN ranges, NaN / "
